@@ -74,8 +74,10 @@ def make_layer(case, dtype=torch.float64):
                            combine_colour=case['colour'])
 
 
-def reference(case, x):
-    """Reference output(s) for x: list of acceptable arrays."""
+def reference(case, x, any_split=False):
+    """Reference output(s) for x: list of acceptable arrays. any_split: accept every way of distributing the
+    repeated border rows/columns (used only where the pinned code cannot run at all, finding D10, so that a
+    future repair is not tied to one particular split)."""
     H, W = x.shape[-2:]
     b, colour = case['bias'], case['colour']
     if case['order'] == 1:
@@ -85,6 +87,9 @@ def reference(case, x):
     rh, rw = H % 8, W % 8
     splits_h = [(0, 0)] if rh == 0 else [((8 - rh) // 2, (9 - rh) // 2), ((9 - rh) // 2, (8 - rh) // 2)]
     splits_w = [(0, 0)] if rw == 0 else [((8 - rw) // 2, (9 - rw) // 2), ((9 - rw) // 2, (8 - rw) // 2)]
+    if any_split:
+        splits_h = [(0, 0)] if rh == 0 else [(a, 8 - rh - a) for a in range(0, 9 - rh)]
+        splits_w = [(0, 0)] if rw == 0 else [(a, 8 - rw - a) for a in range(0, 9 - rw)]
     for sh in dict.fromkeys(splits_h):
         for sw in dict.fromkeys(splits_w):
             xe = np.pad(x, ((0, 0), (0, 0), sh, sw), mode='edge')
@@ -132,7 +137,7 @@ def run_case(case):
         return r.fail('nonfinite:order%d' % order, 'output contains non-finite values')
     g = 8.0 if order == 1 else 64.0
     tol = 1e-9 * (g * core.maxabs(x) + bias) + 1e-300
-    refs = reference(case, x)
+    refs = reference(case, x, any_split=kf10)
     errs = []
     for ref in refs:
         okc, err = core.close(z, ref, tol)
